@@ -1,6 +1,11 @@
 package props
 
 import (
+	"github.com/form3tech-oss/f1/v2/pkg/f1"
+	"github.com/prometheus/client_golang/prometheus"
+	"os"
+	"log/slog"
+	"io"
 	"strings"
 	"context"
 	"fmt"
@@ -113,11 +118,93 @@ func init() {
 				cse.TimeoutMS = 60000
 				cs = append(cs, cse)
 			}
+			// the public API: static labels and a logger given to one f1 instance in either order, a real command
+			// line, the process-wide registry (one fresh process per case: that registry is built once)
+			for i := 0; i < 4; i++ {
+				cse := core.MkCase("C16", "cli", i, seed, map[string]int{"order": i % 2, "fail": i / 2})
+				cse.Solo = true
+				cse.TimeoutMS = 60000
+				cs = append(cs, cse)
+			}
 			return cs
 		},
-		Kinds:  map[string]core.RunFunc{"runs": c16Runs},
+		Kinds:  map[string]core.RunFunc{"runs": c16Runs, "cli": c16CLI},
 		Floors: map[string]int64{"runs_checked": 60, "runs_with_drops": 8, "later_runs_on_instance": 20, "series_checked": 100},
 	})
+}
+
+// c16CLI: f1.New() with WithStaticMetrics and WithLogger in either order, `run users` through ExecuteWithArgs with a
+// push gateway configured (which is what enables iteration metrics on the command line); the process-wide
+// registry's setup and iteration series carry every static label with its value and the scenario name.
+func c16CLI(c *core.Case, o *core.Outcome) {
+	var pp map[string]int
+	c.Params(&pp)
+	labels := map[string]string{"team": "payments", "env": " staging", "Build_42": "ünïcödé ✓"}
+	gw := engine.NewGateway(200)
+	defer gw.Close()
+	os.Setenv("PROMETHEUS_PUSH_GATEWAY", gw.URL())
+	defer os.Unsetenv("PROMETHEUS_PUSH_GATEWAY")
+	quiet := slog.New(slog.NewTextHandler(io.Discard, nil))
+	inst := f1.New()
+	if pp["order"] == 0 {
+		inst = inst.WithStaticMetrics(labels).WithLogger(quiet)
+	} else {
+		inst = inst.WithLogger(quiet).WithStaticMetrics(labels)
+	}
+	var n atomic.Int64
+	inst.Add("cliScenario", func(t *f1testing.T) f1testing.RunFn {
+		return func(t *f1testing.T) {
+			if k := n.Add(1); pp["fail"] == 1 && k%2 == 0 {
+				t.Fail()
+			}
+		}
+	})
+	err := inst.ExecuteWithArgs([]string{"run", "users", "-c", "2", "-i", "6", "-d", "30s", "--max-failures", "10", "cliScenario"})
+	desc := fmt.Sprintf("order=%d fail=%d labels=%v", pp["order"], pp["fail"], labels)
+	if err != nil {
+		o.Violate("cli-run:"+desc, "the run returned %v (%s)", err, desc)
+		return
+	}
+	mfs, gerr := prometheus.DefaultGatherer.Gather()
+	if gerr != nil {
+		o.Violate("cli-gather:"+desc, "gathering the process-wide registry failed: %v", gerr)
+		return
+	}
+	seen := 0
+	var samples uint64
+	for _, mf := range mfs {
+		if mf.GetName() != engine.IterationFamily && mf.GetName() != engine.SetupFamily {
+			continue
+		}
+		for _, m := range mf.GetMetric() {
+			got := map[string]string{}
+			for _, lp := range m.GetLabel() {
+				got[lp.GetName()] = lp.GetValue()
+			}
+			seen++
+			o.AddObs("series_checked", 1)
+			if mf.GetName() == engine.IterationFamily && got["stage"] == "iteration" {
+				samples += m.GetSummary().GetSampleCount()
+			}
+			if got["test"] != "cliScenario" {
+				o.Violate("cli-name:"+desc, "series %v of %s is not named after the scenario (%s)", got, mf.GetName(), desc)
+				return
+			}
+			for k, v := range labels {
+				if gv, ok := got[k]; !ok || gv != v {
+					o.Violate("cli-labels:"+desc, "series %v of %s does not carry the static label %s=%q given to WithStaticMetrics (%s)", got, mf.GetName(), k, v, desc)
+					return
+				}
+			}
+		}
+	}
+	if seen < 2 || samples != 6 {
+		o.Violate("cli-series:"+desc, "expected a setup series and iteration series with 6 samples in the process-wide registry; saw %d series and %d iteration samples (%s)", seen, samples, desc)
+		return
+	}
+	o.Events += int64(seen) + n.Load()
+	o.AddObs("runs_checked", 1)
+	o.Sig("cli:order=%d:fail=%d", pp["order"], pp["fail"])
 }
 
 func c16Runs(c *core.Case, o *core.Outcome) {
